@@ -74,7 +74,7 @@ def scan(args):
             bad, errs = violations(p, tmp)
             new = sorted(b for b in bad if list(b) not in base[p] and tuple(b) not in [tuple(x) for x in base[p]])
             if new or errs:
-                out[p] = {"rules": sorted({b[0] for b in new}), "constructs": [f"{b[0]} {b[1][:100]}" for b in new][:12], "errors": errs[:2]}
+                out[p] = {"rules": sorted({b[0] for b in new}), "constructs": [f"{b[0]} {b[1][:100]}" for b in new][:40], "errors": errs[:2]}
         return label, out, None
     finally:
         shutil.rmtree(tmp, ignore_errors=True)
@@ -84,31 +84,50 @@ def main():
     args = [a for a in sys.argv[1:] if not a.startswith("--")]
     update = "--update" in sys.argv
     own_only = "--own-only" in sys.argv
+    benign = "--benign" in sys.argv
+    props = ALL
+    rules_prefix = None
+    for a in sys.argv[1:]:
+        if a.startswith("--props="):
+            props = [x.upper() for x in a.split("=", 1)[1].split(",")]
+        if a.startswith("--rules="):
+            rules_prefix = a.split("=", 1)[1].upper()
     items = []
-    sd = os.path.join(V, "seeded")
+    sd = os.path.join(V, "benign" if benign else "seeded")
     if not args:
         args = sorted(d for d in os.listdir(sd) if os.path.exists(os.path.join(sd, d, "patch.diff")))
     for a in args:
         if os.path.exists(os.path.join(sd, a, "patch.diff")):
-            meta = json.load(open(os.path.join(sd, a, "meta.json")))
-            items.append((a, os.path.join(sd, a, "patch.diff"), meta["property"]))
+            own = None
+            if not benign:
+                own = json.load(open(os.path.join(sd, a, "meta.json")))["property"]
+            items.append((a, os.path.join(sd, a, "patch.diff"), own))
         else:
             items.append((a, os.path.abspath(a), None))
     with ProcessPoolExecutor(max_workers=16) as ex:
-        base = dict(ex.map(baseline, ALL))
+        base = dict(ex.map(baseline, props))
         dirty = {p: b for p, b in base.items() if b}
         if dirty:
             print("NOTE: unchanged HEAD already has violations:", dirty)
-        work = [(lab, patch, ([own] if own_only and own else ALL), base) for lab, patch, own in items]
+        work = [(lab, patch, ([own] if own_only and own and own in props else props), base) for lab, patch, own in items]
         res = list(ex.map(scan, work))
     own_hit = other_hit = none = 0
     for (lab, patch, own), (_l, out, err) in zip(items, res):
         if err:
             print(f"{lab:10s} ERROR {err}")
             continue
+        if rules_prefix:
+            # keep only alarms raised by rules of that module (own id, or imported: "[Cnn.Rk]" in the construct)
+            flt = {}
+            for p, v in out.items():
+                cs = [c for c in v["constructs"] if c.startswith(rules_prefix + ".") or f"[{rules_prefix}." in c]
+                if cs:
+                    flt[p] = {"rules": sorted({c.split(" ")[0] for c in cs}), "constructs": cs, "errors": []}
+            out = flt
         mine = out.get(own, {}).get("rules", []) if own else []
         errs_own = out.get(own, {}).get("errors", []) if own else []
         others = sorted(r for p, v in out.items() if p != own for r in v["rules"])
+        others += sorted(f"{p}:ANALYSIS-ERROR" for p, v in out.items() if p != own and v["errors"] and not v["rules"])
         if mine:
             own_hit += 1
         elif others:
@@ -129,6 +148,9 @@ def main():
             meta["detected"] = bool(mine)
             meta["detected_by_all_checks"] = sorted(set(mine) | set(others))
             json.dump(meta, open(mp, "w"), indent=1)
+    if benign or not any(own for _l, _p, own in items):
+        print(f"total {len(items)}: silent {none}, with alarms {own_hit + other_hit}")
+        return 0 if own_hit + other_hit == 0 else 1
     print(f"total {len(items)}: own-property check {own_hit}, other checks only {other_hit}, none {none}")
     return 0 if none == 0 else 1
 
